@@ -109,9 +109,14 @@ def run(ch, build):
         steps = [{"op": "cmd", "conn": "sessionless", "cmd": pool[0], "script": ["ok"]}]
         for j in range(60):
             steps.append({"op": "cmd", "conn": "sessionless", "cmd": pool[(j * 7 + k) % len(pool)], "script": ["okstray"] * 6})
-        uscns.append({"bmc": conn.default_bmc(seed=900 + k, loose=True, guid=bytes(rng.randrange(256) for _ in range(16)).hex()), "timeout_ms": 300, "udp": True, "steps": steps})
+        uscns.append({"bmc": conn.default_bmc(seed=900 + k, loose=True, guid=bytes(rng.randrange(256) for _ in range(16)).hex()), "timeout_ms": 1500, "udp": True, "steps": steps})
     for si, (scn, out) in enumerate(zip(uscns, conn.run_scenarios(uscns, spread=True))):
+        seen = []
         for ti, (step, res) in enumerate(zip(scn["steps"], out["steps"])):
+            # the BMC's answers to this command anywhere in the scenario so far: on a busy machine a reply can arrive after
+            # its attempt's window, and what the next call of the same command then reads first is that (equal) answer
+            seen += res["bmc"]
+            res = dict(res, bmc=list(seen))
             desc = {"kind": "c11", "conn": "sessionless-udp", "cmd": step["cmd"]["name"], "script": step["script"][:1]}
             ch.note_case("c11-udp-stray-behind-reply", "%d|%d|%s" % (si, ti, step["cmd"]))
             if res.get("panic"):
